@@ -5,6 +5,7 @@ import (
 	"go/token"
 	"go/types"
 	"math/big"
+	"strings"
 
 	"golang.org/x/tools/go/ssa"
 )
@@ -20,6 +21,9 @@ func (e *Exec) execInstr(fr *frame, st *State, in ssa.Instruction) {
 		p := e.ptr(st, e.get(st, x.X), where)
 		if p == nil {
 			return
+		}
+		if len(e.LockRules) > 0 {
+			e.checkLockRule(st, x, p, where)
 		}
 		st.Regs[x] = &Ptr{Obj: p.Obj, Path: appendStep(p.Path, Step{Field: x.Field})}
 	case *ssa.IndexAddr:
@@ -166,6 +170,44 @@ func (e *Exec) slIdx(sl *SliceV, i *Term) *Term {
 		r = e.S.Add(r, sl.OffT)
 	}
 	return r
+}
+
+// LockRule: every access to Struct.Field must happen while Struct.Mutex is held.
+type LockRule struct {
+	Struct string `json:"struct"`
+	Field  string `json:"field"`
+	Mutex  string `json:"mutex"`
+}
+
+func (e *Exec) checkLockRule(st *State, x *ssa.FieldAddr, p *Ptr, where string) {
+	if fn := x.Parent(); fn != nil && strings.HasPrefix(fn.Name(), "zz") {
+		return // harness code sets up and inspects the state single-threaded
+	}
+	pt, ok := x.X.Type().Underlying().(*types.Pointer)
+	if !ok {
+		return
+	}
+	named, ok := pt.Elem().(*types.Named)
+	if !ok {
+		return
+	}
+	stt, ok := named.Underlying().(*types.Struct)
+	if !ok {
+		return
+	}
+	for _, r := range e.LockRules {
+		if named.Obj().Name() != r.Struct || stt.Field(x.Field).Name() != r.Field {
+			continue
+		}
+		for i := 0; i < stt.NumFields(); i++ {
+			if stt.Field(i).Name() == r.Mutex {
+				cell := &Ptr{Obj: p.Obj, Path: appendStep(appendStep(p.Path, Step{Field: i}), Step{Field: 0})}
+				cur := e.term(e.load(st, cell, where), "mutex state")
+				held := e.S.Eq(cur, e.S.Int(1))
+				e.abortIf(st, e.S.Not(held), "unlocked-access", where+" "+r.Struct+"."+r.Field)
+			}
+		}
+	}
 }
 
 func appendStep(p []Step, s Step) []Step {
@@ -795,6 +837,15 @@ func (e *Exec) keyEq(a, b Val) *Term {
 		return e.strEq(a, b)
 	case *IfaceV:
 		return e.ifaceEq(a, b, "map key")
+	case *Agg:
+		y, ok := b.(*Agg)
+		if ok && len(x.Elems) == len(y.Elems) {
+			var cs []*Term
+			for i := range x.Elems {
+				cs = append(cs, e.keyEq(e.aggElem(x, i), e.aggElem(y, i)))
+			}
+			return e.S.And(cs...)
+		}
 	}
 	panic(&UnsupportedErr{Msg: fmt.Sprintf("map key of %T", a)})
 }
